@@ -140,7 +140,7 @@ Section Init.
     - change (ntimes 1 (gscale q x)) with (Some (gscale q x)). f_equal. f_equal.
       change (qnat 1) with (Q2Qc 1 + Q2Qc 0)%Qc. rewrite Qcplus_0_r, Qcmult_1_l. reflexivity.
     - change (ntimes (S (S k)) (gscale q x)) with (omul (Some (gscale q x)) (ntimes (S k) (gscale q x))).
-      rewrite IH by lia. simpl omul. f_equal.
+      rewrite IH by lia. unfold Model.omul. f_equal.
       rewrite <- (m_add_l _ _ _ ML). f_equal.
       change (qnat (S (S k))) with (Q2Qc 1 + qnat (S k))%Qc.
       rewrite Qcmult_plus_distr_l, Qcmult_1_l. reflexivity.
@@ -162,8 +162,8 @@ Section Init.
     prod_at v None (map (mk_mf msg) fs) = ntimes (length (filter (has_var v) fs)) (msg v).
   Proof.
     induction fs as [|f fs IH]; [reflexivity|].
-    simpl map. rewrite (prod_at_cons G gadd gopp gzero GL), get_mk_mf, IH.
-    destruct (has_var v f); simpl; [reflexivity|].
+    simpl map. rewrite (prod_at_cons G gadd gopp gzero GL), get_mk_mf, IH. simpl filter.
+    destruct (has_var v f); [reflexivity|].
     destruct (ntimes _ _); reflexivity.
   Qed.
 
